@@ -61,7 +61,10 @@ type Case struct {
 	HangCase bool `json:"hangCase,omitempty"`
 	// Gateway: a further node that is not in the server list (it stores nothing, every request it takes is
 	// routed to the listed servers); its own list names exactly the storage servers
-	Gateway            bool   `json:"gateway,omitempty"`
+	Gateway bool `json:"gateway,omitempty"`
+	// ZeroRetries: the nodes are configured with rpcRetries: 0 (the value a configuration file that omits
+	// the key gets); a call is still attempted once
+	ZeroRetries        bool   `json:"zeroRetries,omitempty"`
 	Nodes              int    `json:"nodes"`
 	MaxShardPointCount int64  `json:"maxShardPointCount"`
 	Steps              []Step `json:"steps"`
@@ -105,6 +108,7 @@ func genCase(t *rapid.T) Case {
 	c := Case{Nodes: rapid.IntRange(1, 3).Draw(t, "nodes"), MaxShardPointCount: int64(rapid.IntRange(2, 5).Draw(t, "mspc"))}
 	c.HangCase = c.Nodes > 1 && rapid.IntRange(0, 11).Draw(t, "hangCase") == 0
 	c.Gateway = rapid.IntRange(0, 4).Draw(t, "gateway") == 0
+	c.ZeroRetries = !c.HangCase && rapid.IntRange(0, 5).Draw(t, "zeroRetries") == 0
 	hangsLeft := 2
 	pool := poolIds(24)
 	stored := map[uuid.UUID]bool{}
@@ -299,6 +303,10 @@ func execCase(c Case) (res vt.Result) {
 		e.servers = append(e.servers, e.specs[k].Name())
 	}
 	nodeOpts := drive.ClusterOpts{MaxShardPointCount: c.MaxShardPointCount, ShardTimeout: 2, RpcTimeout: 5, RpcRetries: 1}
+	if c.ZeroRetries {
+		nodeOpts.RpcRetries, nodeOpts.ZeroRetries = 0, true
+		rec.Count("cases_with_rpc_retries_0", 1)
+	}
 	if c.HangCase {
 		nodeOpts.RpcTimeout = 1
 	}
